@@ -35,6 +35,63 @@ pub fn run(tier: Tier, replay: Option<Value>) -> ! {
     // the full case matrix: three arms, every terminator pair, every (matching / non-matching / default)
     // pattern combination, bodies with distinct statuses, alone and inside a loop
     let (mut progs, mut scripts) = (progs, scripts);
+    let mut matrix_tags: std::collections::HashMap<usize, Vec<String>> = Default::default();
+    if replay.is_none() {
+        // control transfers in CONDITION positions: every place a command list is evaluated for its status
+        // (if / elif / while / until conditions, both sides of && and ||, a negated list, a case word's
+        // command substitution) holding each transfer command, inside 1 or 2 loops and a function
+        let transfers = ["break", "continue", "break 2", "continue 2", "return 3", "{ ko 8; break; }", "{ ok 8 && continue; }"];
+        let positions: &[(&str, &str)] = &[
+            ("if-cond", "if @T@; then ok 1; else ok 2; fi"),
+            ("elif-cond", "if ko 1; then ok 2; elif @T@; then ok 3; else ok 4; fi"),
+            ("elif2-cond", "if ko 1; then ok 2; elif ko 3; then ok 4; elif @T@; then ok 5; fi"),
+            ("while-cond", "while @T@; do ok 1; break; done"),
+            ("until-cond", "until @T@; do ok 1; break; done"),
+            ("and-left", "@T@ && ok 1"),
+            ("and-right", "ok 1 && @T@"),
+            ("or-right", "ko 1 || @T@"),
+            ("negated", "! @T@"),
+            ("if-body-after-cond", "if ok 1; then @T@; fi"),
+            ("case-body", "case a in a) @T@ ;; esac"),
+            ("group", "{ @T@; }"),
+            ("nested-if-cond", "if if @T@; then ok 1; fi; then ok 2; fi"),
+        ];
+        let enclosures: &[(&str, &str, &str)] = &[
+            ("loop", "for v in 1 2; do\n", "\npr\nok 9\ndone"),
+            ("loop-in-loop", "for u in 1 2; do\nfor v in 1 2; do\n", "\npr\nok 9\ndone\npr\ndone"),
+            ("while-loop", "while c2 7; do\n", "\npr\nok 9\ndone"),
+            ("func-in-loop", "fq() {\n", "\npr\nok 9\n}\nfor v in 1 2; do fq; pr; done"),
+        ];
+        for t in transfers {
+            for (pn, ptext) in positions {
+                for (en, eo, ec) in enclosures {
+                    let body = format!("{eo}{}{ec}", ptext.replace("@T@", t));
+                    scripts.push(format!("{}{body}\necho \"end=$?\"\n", g::PRELUDE));
+                    progs.push(None);
+                    let mut mt = vec!["ctl-in-condition".to_string(), format!("pos:{pn}"), format!("encl:{en}"), format!("transfer:{}", t.replace(['{', '}', ';'], "").trim().replace(' ', "-"))];
+                    // the descriptor tags the grammar programs use for the same situations
+                    let kw = if t.contains("continue") { "continue" } else if t.contains("break") { "break" } else { "return" };
+                    let levels = if t.ends_with(" 2") { 2 } else { 1 };
+                    let loops = match *en {
+                        "loop-in-loop" => 2,
+                        "func-in-loop" => 0,
+                        _ => 1,
+                    } + usize::from(pn.starts_with("while") || pn.starts_with("until"));
+                    if kw != "return" {
+                        if *en == "func-in-loop" {
+                            mt.push("ctl-in-func-called-from-loop".into());
+                        }
+                        if loops == 0 {
+                            mt.push(format!("{kw}:outside-loop"));
+                        } else if levels > loops {
+                            mt.push(format!("{kw}:levels>loops"));
+                        }
+                    }
+                    matrix_tags.insert(scripts.len() - 1, mt);
+                }
+            }
+        }
+    }
     if replay.is_none() {
         let terms = [";;", ";&", ";;&"];
         let pats = ["a", "b", "*"];
@@ -52,6 +109,7 @@ pub fn run(tier: Tier, replay: Option<Value>) -> ! {
                                     let body = if wrap == "loop" { format!("for v in 1 2; do\n{case}\npr\ndone") } else { case };
                                     scripts.push(format!("{}{body}\necho \"end=$?\"\n", g::PRELUDE));
                                     progs.push(None);
+                                    matrix_tags.insert(scripts.len() - 1, vec!["case-matrix".to_string()]);
                                 }
                             }
                         }
@@ -90,8 +148,8 @@ pub fn run(tier: Tier, replay: Option<Value>) -> ! {
         }
         if got != want {
             let mut tags = vec![];
-            if progs[i].is_none() && replay.is_none() {
-                tags.push("case-matrix".into());
+            if let Some(mt) = matrix_tags.get(&i) {
+                tags.extend(mt.iter().cloned());
             }
             if let Some(p) = &progs[i] {
                 g::ctl_context_tags(p, 0, false, false, false, &mut tags);
